@@ -41,7 +41,7 @@ Fixpoint sem_ok (e : expr) : bool :=
   let ook (l : option expr) := match l with Some x => sem_ok x | None => true end in
   let rok (r : rhs) := match r with RNone => true | RDot x => sem_ok x | RBrk x => sem_ok x end in
   match e with
-  | ELit v => plain v
+  | ELit v => is_json v
   | EParen x => sem_ok x
   | EMSList es => forallb sem_ok es
   | EMSHash kvs => forallb (fun kv : bool * bytes * expr => sem_ok (snd kv)) kvs
@@ -458,7 +458,7 @@ Proof.
   - (* ECurrent *)
     cbn [compile] in Hf. fuel_S fuel f Hf. intros v Hv. cbn. split; [reflexivity|]. intros r Hr. inversion Hr; subst; exact Hv.
   - (* ELit *)
-    cbn [compile] in Hf. fuel_S fuel f Hf. intros w Hw. cbn. split; [reflexivity|]. intros r Hr. inversion Hr; subst; exact Hok.
+    cbn [compile] in Hf. fuel_S fuel f Hf. intros w Hw. cbn. split; [reflexivity|]. intros r Hr. inversion Hr; subst; apply is_json_plain; exact Hok.
   - (* ERaw *)
     cbn [compile] in Hf. fuel_S fuel f Hf. intros w Hw. cbn. split; [reflexivity|]. intros r Hr. inversion Hr; subst; reflexivity.
   - (* EParen *)
